@@ -2,7 +2,8 @@
 """save_seed.py <ID> <k> <caught-by text>: store a confirmed seeded mutant under /verif/seeded/<ID>-<k>/"""
 import sys, json, os, shutil, glob
 ID, k, caught = sys.argv[1], sys.argv[2], sys.argv[3]
-src = f"/tmp/seedout_{ID}/{k}"
+import os as _os
+src = _os.environ.get("SEED_OUT", f"/tmp/seedout_{ID}/{k}")
 dst = f"/verif/seeded/{ID}-{k}"
 os.makedirs(dst, exist_ok=True)
 shutil.copy(f"{src}/patch.diff", f"{dst}/patch.diff")
